@@ -508,7 +508,7 @@ def gen_cases(tier, seed):
                 plans[-1]["now2"] = plans[-1]["now"] + 86400 * rng.choice([365, 366, 730])
                 plans[-1]["shift_mtimes"] = True
     # the file-system back ends on a real directory (entries with real sizes and mtimes set by utime)
-    for i in range(12 if tier == "quick" else 200):
+    for i in range(12 if tier == "quick" else 1200):
         plans.append({"fs": ["pathio", "async"][i % 2], "seed": seed * 11 + i, "n": rng.choice([0, 1, 5, 31, 32, 33, 34, 64, 65, 66, 100, 130]),
                       "encoding": [None, "latin-1"][(i // 2) % 2], "fallback": [False, "no_mlsd"][(i // 4) % 2]})
     per = 10
